@@ -41,6 +41,16 @@ pub fn dump_hir(tcx: TyCtxt<'_>, j: &mut J) {
     j.arr_close();
 }
 
+fn normalize_prelude(p: String) -> String {
+    match p.as_str() {
+        "std::prelude::v1::Ok" => "std::result::Result::Ok".to_string(),
+        "std::prelude::v1::Err" => "std::result::Result::Err".to_string(),
+        "std::prelude::v1::Some" => "std::option::Option::Some".to_string(),
+        "std::prelude::v1::None" => "std::option::Option::None".to_string(),
+        _ => p,
+    }
+}
+
 const LOG_MACROS: &[&str] = &[
     "log::trace", "log::debug", "log::info", "log::warn", "log::error", "log::log", "trace", "debug",
     "info", "warn", "error", "log", "debug_assert", "debug_assert_eq", "debug_assert_ne",
@@ -84,7 +94,7 @@ impl<'a, 'tcx> Cx<'a, 'tcx> {
                     // path of a ctor is the variant/struct path
                     p = path_of(self.tcx, self.tcx.parent(did));
                 }
-                (dk.to_string(), p)
+                (dk.to_string(), normalize_prelude(p))
             }
             Res::Local(id) => ("var".to_string(), self.tcx.hir_name(id).to_string()),
             Res::SelfTyAlias { .. } | Res::SelfTyParam { .. } => ("self_ty".into(), "Self".into()),
@@ -283,8 +293,17 @@ impl<'a, 'tcx> Cx<'a, 'tcx> {
             return false;
         }
         let some_arm = &inner_arms[1];
-        let PatKind::TupleStruct(_, pats, _) = &some_arm.pat.kind else { return false };
-        let Some(item_pat) = pats.first() else { return false };
+        let item_pat: &Pat<'_> = match &some_arm.pat.kind {
+            PatKind::TupleStruct(_, pats, _) => {
+                let Some(p) = pats.first() else { return false };
+                p
+            }
+            PatKind::Struct(_, fields, _) => {
+                let Some(f) = fields.first() else { return false };
+                f.pat
+            }
+            _ => return false,
+        };
         j.obj_open();
         j.kstr("k", "for");
         self.ln(j, e.span);
